@@ -89,6 +89,34 @@ func runC16Extra(c *Ctx) {
 	var follow func(f *ssa.Function, src ssa.Value, from ssa.Instruction, depth int) (bool, token.Pos)
 	follow = func(f *ssa.Function, src ssa.Value, from ssa.Instruction, depth int) (bool, token.Pos) {
 		ok, pos := true, from.Pos()
+		isSrc := func(x ssa.Value) bool { return c16unchanged(x, src, from, 0) }
+		// a literal nil returned where the handler's error is known to be nil is that error (`if err := handler(..);
+		// err != nil { return err }; return nil`)
+		nilWhereNil := func(v ssa.Value, b *ssa.BasicBlock) bool {
+			return isNilConst(v) && b != nil && c16knownNil(b, isSrc)
+		}
+		sameStatus := func(res ssa.Value, b *ssa.BasicBlock) bool {
+			if isSrc(res) || nilWhereNil(res, b) {
+				return true
+			}
+			phi, isPhi := res.(*ssa.Phi)
+			if !isPhi {
+				return false
+			}
+			later := reachableFrom([]*ssa.BasicBlock{from.Block()}, nil)
+			n := 0
+			for k, e := range phi.Edges {
+				pb := phi.Block().Preds[k]
+				if pb != from.Block() && !later[pb] {
+					continue
+				}
+				n++
+				if !isSrc(e) && !nilWhereNil(e, pb) {
+					return false
+				}
+			}
+			return n > 0
+		}
 		eachInstr(f, func(j ssa.Instruction) {
 			r, isR := j.(*ssa.Return)
 			if !isR || !ok || !pathAvoiding(from, j, nil) {
@@ -98,7 +126,7 @@ func runC16Extra(c *Ctx) {
 			for _, res := range r.Results {
 				if c16isErrT(res.Type()) {
 					found = true
-					if !c16unchanged(res, src, from, 0) {
+					if !sameStatus(res, r.Block()) {
 						ok, pos = false, r.Pos()
 					}
 				}
